@@ -265,7 +265,7 @@ theorem checkpoint_sound (h : Hist S P D O M) (b : Base S) (c : Cp S D O M) (s :
     (hs : replayRef sem h b c.tick = (s, none)) :
     c.w = s ∧ c.hash = sem.root c.w.core.g := by
   have hex := replayRef_ok_expected sem h b c.tick s hb hs
-  obtain ⟨_, _, _, hhash, ⟨ex, hex2, hroot⟩, hlen, htx, hz, hnz⟩ := validateCp_none_inv sem h c hv
+  obtain ⟨_, _, _, hhash, ⟨ex, hex2, hroot⟩, hlen, htx, hz, hnz, _, _, _⟩ := validateCp_none_inv sem h c hv
   rw [hex] at hex2
   have hex3 : sem.root s.core.g = ex := by injection hex2
   have hg : c.w.core.g = s.core.g := hinj (by rw [hroot, hex3])
